@@ -52,7 +52,12 @@ class LpInterp(Interp):
             elif base == "Shl" and b[0] == "i":
                 r = pmul(x, pconst(1 << b[1]))
             elif base == "Shr" and b[0] == "i":
-                r = self.q(x, b[1])
+                if x and all(c % (1 << b[1]) == 0 for _, c in x):
+                    # every coefficient is a multiple of 2^k: the value is a multiple of 2^k for all values of the symbols, the shift is an exact division
+                    r = pnorm({m: c >> b[1] for m, c in x})
+                    self.exact_divisions = getattr(self, "exact_divisions", 0) + 1
+                else:
+                    r = self.q(x, b[1])
             elif base == "BitAnd":
                 for u, c in ((x, b), (y, a)):
                     if c[0] == "i" and c[1] == c[2] and c[1] > 0 and (c[1] & (c[1] + 1)) == 0:
@@ -73,9 +78,14 @@ class LpInterp(Interp):
 
 
 class LpModels(Models):
+    watch = None
+
     def call(self, ip, fv, st, depth, t, n, args, dty):
         if re.search(r"zeroize::Zeroize>::zeroize$", n):
             return ("st", ())
+        if self.watch and re.search(self.watch, n):
+            self.logged = getattr(self, "logged", []) + [[ip.deconst(ip.deref_val(st, a)) for a in args]]
+            return ip.default_value(dty)
         return super().call(ip, fv, st, depth, t, n, args, dty)
 
 
@@ -115,7 +125,8 @@ def congruent(p1, p2):
     return not bad, bad[:1]
 
 
-def run(F, f, values, overrides=None):
+def run(F, f, values, overrides=None, watch=None):
     ip = LpInterp(F, LpModels(), step_budget=6_000_000)
+    ip.models.watch = watch
     ret, root = ip.run_root(f, values)
     return ret, ip, root
